@@ -80,7 +80,7 @@ def _digest(x):
 # (stages called out of turn were tried here and dropped: restructure_branch on
 # a graph that still has cycles fails at a block picked in set order - which
 # block the KeyError names is not a "result" the statement speaks about)
-HISTORIES = ["orphan", "refused_remove", "refused_middle"]
+HISTORIES = ["orphan", "refused_remove", "refused_middle", "fail_mend_retry", "fail_retry"]
 
 
 def _fault_history(scfg, g, which, parts):
@@ -90,6 +90,30 @@ def _fault_history(scfg, g, which, parts):
     from numba_scfg.core.datastructures.basic_block import SyntheticFill
 
     names = list(g)
+    if which in ("fail_mend_retry", "fail_retry"):
+        # restructure() is refused (a stray block without predecessors: the
+        # branch stage finds two heads) after the loops were already wrapped;
+        # the caller removes the block - or not - and calls restructure() again
+        # on the same object (the pipeline that follows is the third attempt)
+        from numba_scfg.core.datastructures.basic_block import BasicBlock
+
+        exits = [k for k, v in g.items() if not v]
+        scfg.add_block(BasicBlock(name="stray_block", _jump_targets=tuple(exits[:1])))
+        for attempt in (1, 2):
+            try:
+                scfg.restructure()
+                parts.append((f"fault:{which}:{attempt}", _digest("accepted")))
+            except Exception as e:
+                k = attach.exc_key(e)
+                parts.append((f"fault:{which}:{attempt}",
+                              _digest(["exception", k["type"], k["site"], k["text"]])))
+            try:
+                parts.append((f"after_attempt:{attempt}", _digest(dump(scfg))))
+            except RecursionError:
+                parts.append((f"after_attempt:{attempt}", _digest("cyclic hierarchy")))
+            if attempt == 1 and which == "fail_mend_retry" and "stray_block" in scfg.graph:
+                scfg.remove_blocks({"stray_block"})
+        return
     try:
         if which == "orphan":
             # the new block is added before the predecessors are looked up
